@@ -60,15 +60,17 @@ def good_attrs(extra=False):
     return a
 
 
-def block(name, key, signers, certs=None, sf_damage=None, sf_tag=b"", encap="data"):
+def block(name, key, signers, certs=None, sf_damage=None, sf_tag=b"", encap="data", attached=False, decoy=False):
+    """attached: the PKCS#7 object carries a copy of the signed .SF text (a non-detached signature);
+    decoy: a second entry META-INF/<name up to its first dot>.SF holds the signed text (for names with several dots)"""
     kind = KEYS[key]
     return {"name": name, "ext": EXT[kind], "certs": certs if certs is not None else [(key, NAMES[key % 2], 0x51A7E5 + key)], "signers": signers,
-            "sf_damage": sf_damage, "sf_tag": sf_tag, "encap": encap}
+            "sf_damage": sf_damage, "sf_tag": sf_tag, "encap": encap, "attached": attached, "decoy": decoy}
 
 
 def single(key, halg, attrs, **kw):
     skw = {k: kw.pop(k) for k in ("sid", "over", "sig_damage") if k in kw}
-    return {"min_sdk": kw.pop("min_sdk", None), "blocks": [block("CERT", key, [signer(key, 0, halg, attrs, **skw)], **kw)], "queries": [(0, None)]}
+    return {"min_sdk": kw.pop("min_sdk", None), "blocks": [block(kw.pop("name", "CERT"), key, [signer(key, 0, halg, attrs, **skw)], **kw)], "queries": [(0, None)]}
 
 
 def gen(rng, tier, ctx):
@@ -96,6 +98,14 @@ def gen(rng, tier, ctx):
         cases.append(single(key, "md2", None))
         cases.append(single(key, "md2", good_attrs()))
         cases.append(single(key, "sha256", good_attrs(), encap="signed_data"))
+    # a block name with several dots next to a plain-named .SF that still holds the signed text; a non-detached signature that
+    # carries the signed text itself: in both cases it is the block's own .SF entry that has to verify
+    for key in (0, 2, 4):
+        for attrs in attr_kinds[:2]:
+            for dmg in (None, (rng.randrange(100), 1 + rng.randrange(255))):
+                cases.append(single(key, "sha256", attrs, sf_damage=dmg, name="CERT.V1", decoy=True))
+                cases.append(single(key, "sha256", attrs, sf_damage=dmg, attached=True))
+    cases.append(single(0, "sha256", None, name="A.B.C", decoy=True, sf_damage=(5, 3)))
     cases.append(single(6, "sha256", None))                  # Ed25519: a key type the code does not support
     cases.append(single(6, "sha256", good_attrs()))
     for c in list(cases):
@@ -304,7 +314,10 @@ def build_block(b):
         facts.append({"sid": (sid_name, serial), "alg_ok": hash_cls(halg) is not None, "attrs": attr_facts if s["attrs"] is not None else None, "digest": digest,
                       "vsf": [check(c[0], sig, sf_file, halg) for c in b["certs"]],
                       "vattrs": [check(c[0], sig, tbs, halg) if tbs is not None else "err" for c in b["certs"]]})
-    sd = cms.SignedData({"version": "v1", "digest_algorithms": [{"algorithm": "sha256"}], "encap_content_info": {"content_type": b["encap"]},
+    encap = {"content_type": b["encap"]}
+    if b.get("attached"):
+        encap["content"] = sf_signed
+    sd = cms.SignedData({"version": "v1", "digest_algorithms": [{"algorithm": "sha256"}], "encap_content_info": encap,
                          "certificates": [cms.CertificateChoices({"certificate": c}) for c in acerts], "signer_infos": sis})
     p7 = cms.ContentInfo({"content_type": "signed_data", "content": sd}).dump()
     # SET OF: the DER encoder sorts certificates and SignerInfos by their encodings; the tables follow the order in the file
@@ -338,6 +351,8 @@ def build_apk(case):
     for b in case["blocks"]:
         p7, sf, f = build_block(b)
         entries.append(("META-INF/%s.SF" % b["name"], sf))
+        if b.get("decoy") and "." in b["name"]:
+            entries.append(("META-INF/%s.SF" % b["name"].split(".", 1)[0], sf_text(b["sf_tag"])))
         entries.append(("META-INF/%s.%s" % (b["name"], b["ext"]), p7))
         facts.append(f)
     entries.append(("classes.dex", b""))
